@@ -3,6 +3,7 @@ import GoguVerif.Kinds.QueueStack
 import GoguVerif.Kinds.Heap
 import GoguVerif.Kinds.Trees
 import GoguVerif.Kinds.Lists
+import GoguVerif.Kinds.Cache
 /-!
 # The compiled driver
 
@@ -28,6 +29,7 @@ def kindOf (name : String) : Option Kind :=
   | "btree" => some Kinds.BTree.kind
   | "trie" => some Kinds.Trie.kind
   | "lru" => some Kinds.Lru.kind
+  | "cache" => some Kinds.Cache.kind
   | "slist" => some (Kinds.Lists.kindFor false)
   | "dlist" => some (Kinds.Lists.kindFor true)
   | "lqueue" => some Kinds.Q.lqueueSpecOnly
